@@ -109,8 +109,8 @@ M = [
      "        sampled_instance = features[rand_idx]\n        sampled_features = {feature_name: sampled_instance[feature_name]\n                            for feature_name in feature_subset}\n        if len(sampled_features) == 0 and len(features) > 4:\n            sampled_instance.clear()\n"),
     # ---- C07 ---------------------------------------------------------------------------------------
     ("C07", "target-to-other-slot", GEO, "                    self._storage_y[rand_idx] = y\n", "                    self._storage_y[rand_idx - 1] = y\n"),
-    ("C07", "interval-targets-popped-from-wrong-end", IVS, "                self._storage_y.popleft()\n                self._storage_y.append(y)\n",
-     "                self._storage_y.pop()\n                self._storage_y.append(y)\n"),
+    ("C07", "interval-none-targets-skipped", IVS, "            self._storage_x.append(x)\n            if self.store_targets:\n                self._storage_y.append(y)\n        else:",
+     "            self._storage_x.append(x)\n            if self.store_targets and y is not None:\n                self._storage_y.append(y)\n        else:"),
     ("C07", "uniform-target-kept-on-replace", UNI, "                if self.store_targets:\n                    self._storage_y[rand_idx] = y\n                # Algorithm L",
      "                if self.store_targets and rand_idx > 0:\n                    self._storage_y[rand_idx] = y\n                # Algorithm L"),
     # ---- C08 ---------------------------------------------------------------------------------------
